@@ -172,7 +172,7 @@ func errorValues() []valueSpec {
 				return &errMirror{Name: tx.Name, ID: tx.EID, Message: tx.Message, Temporary: fl.Temporary, Timeout: fl.Timeout, Fault: fl.Fault}
 			}
 			out = append(out, valueSpec{
-				ID: "errresp/" + tx.ID + "/" + fl.id(), Kind: "errresp", Quick: tx.Quick,
+				ID: "errresp/" + tx.ID + "/" + fl.id(), Kind: "errresp", Quick: tx.Quick, Deep: !tx.Quick,
 				Make: func() any {
 					return &goahttp.ErrorResponse{Name: tx.Name, ID: tx.EID, Message: tx.Message, Temporary: fl.Temporary, Timeout: fl.Timeout, Fault: fl.Fault}
 				},
@@ -192,7 +192,7 @@ func errorValues() []valueSpec {
 					return k.Build(&goa.ServiceError{Name: tx.Name, ID: tx.EID, Message: tx.Message, Timeout: fl.Timeout, Temporary: fl.Temporary, Fault: fl.Fault})
 				}
 				out = append(out, valueSpec{
-					ID: "svcerr/" + k.ID + "/" + tx.ID + "/" + fl.id(), Kind: "svcerr-" + k.ID, Quick: k.Quick && tx.Quick,
+					ID: "svcerr/" + k.ID + "/" + tx.ID + "/" + fl.id(), Kind: "svcerr-" + k.ID, Quick: k.Quick && tx.Quick, Deep: !(k.Quick && tx.Quick),
 					Err:    func() error { e, _ := build(); return e },
 					Make:   func() any { e, _ := build(); return e },
 					Target: func() any { return new(goahttp.ErrorResponse) },
@@ -219,7 +219,7 @@ func errorValues() []valueSpec {
 	}{{"plain", "plain <failure> & more", true}, {"plain-empty", "", false}} {
 		p := p
 		out = append(out, valueSpec{
-			ID: "svcerr/" + p.id, Kind: "svcerr-plain", Quick: p.quick, AnyNameID: true,
+			ID: "svcerr/" + p.id, Kind: "svcerr-plain", Quick: p.quick, Deep: !p.quick, AnyNameID: true,
 			Err:       func() error { return errors.New(p.msg) },
 			Make:      func() any { return errors.New(p.msg) },
 			Target:    func() any { return new(goahttp.ErrorResponse) },
